@@ -68,9 +68,16 @@ class TCPServer:
                     self.protocol_send,
                     alpn_protocol,
                 )
-                await self.protocol.initiate()
-                await self.idle_task.restart(task_group, self._idle_timeout)
-                await self._read_data()
+                try:
+                    await self.protocol.initiate()
+                    await self.idle_task.restart(task_group, self._idle_timeout)
+                    await self._read_data()
+                except asyncio.CancelledError:
+                    # Cancelled (e.g. the graceful shutdown deadline has
+                    # passed), there is no time left to wait for a client
+                    # that does not read to take what is being written.
+                    self.writer.transport.abort()
+                    raise
                 # The peer is gone, do not wait for the keep alive timeout
                 self.reading = False
                 await self.idle_task.stop()
